@@ -405,7 +405,10 @@ type lfHeld struct {
 	base  string // printed owner expression ("h" for h.reloadMu), "" for locals / context
 	expr  string // printed lock expression
 	deflt bool   // released by a deferred Unlock
-	ctx   bool   // from lfCalledWith
+	ctx   bool   // from lfCalledWith, or inferred from the call sites
+	// inferred: every call site of this unexported method holds the lock of the object the method is
+	// called on (see lfInfer); it protects the fields reached through the method's receiver only
+	inferred bool
 }
 
 type lfRow struct {
@@ -473,6 +476,8 @@ type lfCallSite struct {
 	held []lfHeld
 	pos  token.Pos
 	from string
+	recv string // printed receiver expression of a method call ("h" for h.m()), "" otherwise
+	isGo bool   // `go f()`: runs in another goroutine, none of the caller's locks protect it
 }
 
 func lfPrint(fset *token.FileSet, e ast.Node) string {
@@ -910,7 +915,7 @@ func (a *lfAn) emit(u *lfUnit, f lfField, base string, write bool, init bool, he
 	var locks []lfLockMode
 	seen := map[string]int{}
 	for _, h := range held {
-		if !h.ctx && h.base != base {
+		if (!h.ctx || h.inferred) && h.base != base {
 			continue // a lock of another object does not protect this object's field
 		}
 		if i, ok := seen[h.name]; ok {
@@ -1105,8 +1110,18 @@ func (a *lfAn) call(u *lfUnit, c *ast.CallExpr, held []lfHeld, isGo bool) {
 	for _, arg := range c.Args {
 		a.expr(u, arg, 'r', held)
 	}
+	recv := ""
+	if f, ok := c.Fun.(*ast.SelectorExpr); ok {
+		recv = lfPrint(a.w.fset, f.X)
+	}
 	if isGo {
-		return // runs in another goroutine: holds none of our locks
+		// runs in another goroutine: holds none of our locks
+		if _, isLit := c.Fun.(*ast.FuncLit); !isLit {
+			for _, k := range a.resolveCall(u, c, false) {
+				a.callsTo[k] = append(a.callsTo[k], lfCallSite{pos: c.Pos(), from: u.key, recv: recv, isGo: true})
+			}
+		}
+		return
 	}
 	if _, isLit := c.Fun.(*ast.FuncLit); isLit {
 		return
@@ -1115,7 +1130,7 @@ func (a *lfAn) call(u *lfUnit, c *ast.CallExpr, held []lfHeld, isGo bool) {
 	if len(ks) > 0 {
 		u.events = append(u.events, lfEvent{held: held, callees: ks, pos: c.Pos()})
 		for _, k := range ks {
-			a.callsTo[k] = append(a.callsTo[k], lfCallSite{held: held, pos: c.Pos(), from: u.key})
+			a.callsTo[k] = append(a.callsTo[k], lfCallSite{held: held, pos: c.Pos(), from: u.key, recv: recv})
 		}
 	}
 }
@@ -1293,7 +1308,7 @@ func (a *lfAn) block(u *lfUnit, list []ast.Stmt, held []lfHeld, nested bool) []l
 				continue
 			}
 			for _, o := range held {
-				if o.expr == h.expr && !o.ctx {
+				if o.expr == h.expr && (!o.ctx || o.inferred) {
 					a.w.errf(s.Pos(), "%s acquired while already held (self-deadlock or recursive RLock)", h.expr)
 				}
 			}
@@ -1495,24 +1510,20 @@ func (a *lfAn) fnBody(u *lfUnit) {
 // ---------------------------------------------------------------------------------------------
 // whole-program part: expectations check, may-acquire summary, lock-order edges, Lean output
 
-func lockFactsLean(root string) (string, error) {
-	lfUnresolvedCalls = nil
-	w, err := lfLoad(root)
-	if err != nil {
-		return "", err
+// lfInferred: unit key -> locks of the receiver object that every call site holds (computed by
+// lfInfer from the previous analysis round; empty in the first round)
+var lfInferred = map[string][]lfLockMode{}
+
+func lfRecvName(fd *ast.FuncDecl) string {
+	if fd.Recv != nil && len(fd.Recv.List) == 1 && len(fd.Recv.List[0].Names) == 1 {
+		return fd.Recv.List[0].Names[0].Name
 	}
+	return ""
+}
+
+// lfAnalyse runs the per-function analysis over every scanned package
+func lfAnalyse(w *lfWorld) *lfAn {
 	a := &lfAn{w: w, units: map[string]*lfUnit{}, callsTo: map[string][]lfCallSite{}}
-	// every configured field must exist
-	for _, f := range lfShared {
-		t := lfTy{pkg: f.pkg, name: f.strct}
-		for _, n := range f.path {
-			nt, ok := w.field(t, n)
-			if !ok {
-				return "", fmt.Errorf("configured shared field %s.%s.%s does not exist", f.pkg, f.strct, strings.Join(f.path, "."))
-			}
-			t = nt
-		}
-	}
 	for _, pc := range lfPackages {
 		p := w.pkgs[pc.key]
 		for _, lf := range p.files {
@@ -1529,12 +1540,156 @@ func lockFactsLean(root string) (string, error) {
 				for _, l := range lfCalledWith[key] {
 					u.ctx = append(u.ctx, lfHeld{name: l.name, excl: l.excl, ctx: true, expr: "<caller>." + l.name})
 				}
+				if rn := lfRecvName(fd); rn != "" {
+					for _, l := range lfInferred[key] {
+						fld := l.name[strings.LastIndex(l.name, ".")+1:]
+						u.ctx = append(u.ctx, lfHeld{name: l.name, excl: l.excl, ctx: true, inferred: true, base: rn, expr: rn + "." + fld})
+					}
+				}
 				a.bindLocals(u)
 				a.units[key] = u
 				a.order = append(a.order, key)
 				a.fnBody(u)
 			}
 		}
+	}
+	return a
+}
+
+// lfInfer: "helper H is only ever called, on object X, by callers that hold X's lock L". Inferred
+// for an unexported method that is never used as a value (only called), is never reached through a
+// call the resolver could not type, and has at least one call site; the result is the intersection
+// over ALL its call sites (a `go` call holds nothing) of the locks whose owner expression is the
+// call's receiver expression. Extracting part of a critical section into such a helper therefore
+// keeps the rows of the moved accesses guarded, and calling the helper without the lock anywhere
+// drops the lock from every row of the helper (and the table theorem fails).
+func lfInfer(a *lfAn) map[string][]lfLockMode {
+	// identifiers in call position, and every other use of a name
+	valueNames := map[string]bool{}
+	for _, pc := range lfPackages {
+		for _, lf := range a.w.pkgs[pc.key].files {
+			callIdents := map[*ast.Ident]bool{}
+			ast.Inspect(lf.f, func(n ast.Node) bool {
+				switch x := n.(type) {
+				case *ast.CallExpr:
+					switch f := x.Fun.(type) {
+					case *ast.Ident:
+						callIdents[f] = true
+					case *ast.SelectorExpr:
+						callIdents[f.Sel] = true
+					}
+				case *ast.FuncDecl:
+					callIdents[x.Name] = true
+				}
+				return true
+			})
+			ast.Inspect(lf.f, func(n ast.Node) bool {
+				if id, ok := n.(*ast.Ident); ok && !callIdents[id] {
+					valueNames[id.Name] = true
+				}
+				return true
+			})
+		}
+	}
+	unresolved := map[string]bool{}
+	for _, ur := range lfUnresolvedCalls {
+		unresolved[ur.name] = true
+	}
+	out := map[string][]lfLockMode{}
+	for _, k := range a.order {
+		u := a.units[k]
+		if strings.Contains(k, "$") || u.recv == nil || lfCalledWith[k] != nil || lfInitFns[k] {
+			continue
+		}
+		name := k[strings.LastIndex(k, ".")+1:]
+		if name == "" || !(name[0] >= 'a' && name[0] <= 'z') || valueNames[name] || unresolved[name] {
+			continue
+		}
+		sites := a.callsTo[k]
+		if len(sites) == 0 {
+			continue
+		}
+		var acc []lfLockMode
+		for i, s := range sites {
+			var here []lfLockMode
+			if !s.isGo && s.recv != "" {
+				for _, h := range s.held {
+					if h.base == s.recv && h.base != "" && (!h.ctx || h.inferred) {
+						here = append(here, lfLockMode{h.name, h.excl})
+					}
+				}
+			}
+			if i == 0 {
+				acc = here
+				continue
+			}
+			var both []lfLockMode
+			for _, x := range acc {
+				for _, y := range here {
+					if x.name == y.name {
+						both = append(both, lfLockMode{x.name, x.excl && y.excl})
+						break
+					}
+				}
+			}
+			acc = both
+		}
+		if len(acc) > 0 {
+			out[k] = acc
+		}
+	}
+	return out
+}
+
+func lfSameInferred(x, y map[string][]lfLockMode) bool {
+	if len(x) != len(y) {
+		return false
+	}
+	for k, v := range x {
+		w, ok := y[k]
+		if !ok || len(v) != len(w) {
+			return false
+		}
+		for i := range v {
+			if v[i] != w[i] {
+				return false
+			}
+		}
+	}
+	return true
+}
+
+func lockFactsLean(root string) (string, error) {
+	w, err := lfLoad(root)
+	if err != nil {
+		return "", err
+	}
+	// every configured field must exist
+	for _, f := range lfShared {
+		t := lfTy{pkg: f.pkg, name: f.strct}
+		for _, n := range f.path {
+			nt, ok := w.field(t, n)
+			if !ok {
+				return "", fmt.Errorf("configured shared field %s.%s.%s does not exist", f.pkg, f.strct, strings.Join(f.path, "."))
+			}
+			t = nt
+		}
+	}
+	loadErrs := append([]string{}, w.errs...)
+	lfInferred = map[string][]lfLockMode{}
+	var a *lfAn
+	for round := 0; ; round++ {
+		lfUnresolvedCalls = nil
+		w.errs = append([]string{}, loadErrs...)
+		a = lfAnalyse(w)
+		next := lfInfer(a)
+		if lfSameInferred(next, lfInferred) {
+			break
+		}
+		if round == 8 {
+			return "", fmt.Errorf("caller-held lock inference does not reach a fixed point")
+		}
+		lfInferred = next
 	}
 	for k := range lfInitFns {
 		if a.units[k] == nil {
@@ -1703,6 +1858,18 @@ func lockFactsLean(root string) (string, error) {
 		}
 	}
 	fmt.Fprintf(&sb, "/-- hand-written expectation, checked against every resolvable call site: callee, lock, exclusive -/\ndef calledWith : List (String × String × Bool) := [%s]\n\n", strings.Join(cw, ", "))
+	var iks []string
+	for k := range lfInferred {
+		iks = append(iks, k)
+	}
+	sort.Strings(iks)
+	var iw []string
+	for _, k := range iks {
+		for _, l := range lfInferred[k] {
+			iw = append(iw, fmt.Sprintf("(%s, %s, %v)", strconv.Quote(k), strconv.Quote(l.name), l.excl))
+		}
+	}
+	fmt.Fprintf(&sb, "/-- inferred by the extractor from ALL call sites of an unexported, never-escaping method: the\nreceiver's lock every caller holds (callee, lock, exclusive); the rows of the callee list it -/\ndef inferredCalledWith : List (String × String × Bool) := [%s]\n\n", strings.Join(iw, ", "))
 	sb.WriteString("end DnsVerif.Generated.LockFacts\n")
 	return sb.String(), nil
 }
